@@ -193,7 +193,7 @@ def gen_jobs(ctx):
                 add('step', INITS[0], evs, 'exhaustive')
                 covered.add(json.dumps(evs))
     # 2. sampled histories of length 3-4 over the full small alphabet
-    n_s = 6 if quick else 250
+    n_s = 6 if quick else 150
     tries = 0
     while n_s > 0 and tries < 10000:
         tries += 1
@@ -204,7 +204,7 @@ def gen_jobs(ctx):
             add('step', init, evs, 'sampled-3-4')
             n_s -= 1
     # 3. random histories up to length 8 over 2-4 files, one at a time
-    n_r = 8 if quick else 300
+    n_r = 8 if quick else 250
     tries = 0
     while n_r > 0 and tries < 10000:
         tries += 1
@@ -217,7 +217,7 @@ def gen_jobs(ctx):
     # 4. bursts (real interleavings of handler, file worker, dispatcher + rate limiter, workspace worker).
     #    Parse failures are left to step mode: there the final state depends on the job-atomic schedule, so
     #    a burst could not be compared with a single prediction.
-    n_b = 10 if quick else 300
+    n_b = 10 if quick else 250
     tries = 0
     while n_b > 0 and tries < 10000:
         tries += 1
